@@ -61,8 +61,56 @@ let check_rs (t : toks) : string =
     end
   end
 
+(* client lines:
+   RC <msize> <dotu> <streamhex> SEG <k> <len>*k ; N <n> { <tag> <type> <framemd5> }*n ; OWN <b> ; ST <open|closed|stalled> *)
+let crefs : (string, string * string) Hashtbl.t = Hashtbl.create 64
+
+let check_rc (t : toks) : string =
+  let msize = next_n t in let dotu = next_bool t in
+  let shex = next t in
+  let stream = bytes_of_hex shex in
+  expect t "SEG";
+  let k = next_int t in
+  let lens = repeat_read k (fun () -> next_int t) in
+  expect t ";"; expect t "N";
+  let n = next_int t in
+  let recs = repeat_read n (fun () -> let tag = next_int t in let ty = next_int t in let fm = next t in (tag, ty, fm)) in
+  expect t ";"; expect t "OWN"; let own = next_bool t in
+  expect t ";"; expect t "ST"; let st = next t in
+  let where = Printf.sprintf "msize=%s nseg=%d streamlen=%d delivered=%d" (string_of_n msize) k (List.length stream) n in
+  let nstr = String.concat " " (List.map (fun (tag, ty, fm) -> Printf.sprintf "%d:%d:%s" tag ty fm) recs) in
+  let key = Printf.sprintf "%s/%b/%s" (string_of_n msize) dotu shex in
+  if not own then "ORACLE C09.call_got_another_calls_reply|C13.client_outcome_depends_on_segmentation " ^ where
+  else if st = "stalled" then "ORACLE C13.client_stopped_reading_a_valid_stream|C10.call_never_returned " ^ where
+  else begin
+    let o2 =
+      match Hashtbl.find_opt crefs key with
+      | None -> Hashtbl.replace crefs key (nstr, st); "OK"
+      | Some (n0, st0) ->
+        if n0 <> nstr then "ORACLE C13.client_outcome_depends_on_segmentation deliveries-differ " ^ where
+        else if st0 <> st then "ORACLE C13.client_outcome_depends_on_segmentation close-differs " ^ where
+        else "OK" in
+    if o2 <> "OK" then o2
+    else begin
+      let rec mksegs lens rest = match lens with
+        | [] -> [] | l :: r -> let (a, b) = split_at l rest in a :: mksegs r b in
+      let segs = mksegs lens stream in
+      let (s, items) = clnt_run { p_msize = msize; p_dotu = dotu } segs in
+      let mitems = List.sort compare
+          (List.map (fun it -> (int_of_n it.i_tag, int_of_n (typ it.i_msg), md5_8 it.i_frame)) items) in
+      let iitems = List.sort compare recs in
+      let mclosed = (match s.r_st with ClosedBad -> true | _ -> false) in
+      if (match s.r_st with ReadEmpty -> true | _ -> false) then "DIFF model-read-empty " ^ where
+      else if mitems <> iitems then
+        Printf.sprintf "DIFF client delivered-frames model=%d impl=%d %s" (List.length mitems) (List.length iitems) where
+      else if mclosed <> (st = "closed") then Printf.sprintf "DIFF client closed model=%b impl=%s %s" mclosed st where
+      else "OK"
+    end
+  end
+
 let check_line (l : string) : string =
   let t = toks_of_line l in
   match next t with
   | "RS" -> check_rs t
+  | "RC" -> check_rc t
   | x -> failwith ("mode recv: bad record " ^ x)
